@@ -465,13 +465,34 @@ pub fn gen_schema(t: &mut Tape) -> SchemaAst {
                 _ => Card::One,
             };
             let params = gen_params(&types[target].props, t, &format!("e{edge_ctr}"));
-            own_edges[k].push(EdgeDef {
-                name: format!("e{edge_ctr}"),
-                target,
-                card,
-                params,
-                origin: k,
-            });
+            // Sometimes an object type reuses the *name* of an edge that an unrelated type defines
+            // (another object type, or an interface it does not implement), with its own,
+            // independently drawn target, cardinality and parameter declarations: anything the
+            // engine keys by edge name alone instead of (type, edge) then mixes the two up.
+            let mut name = format!("e{edge_ctr}");
+            if !types[k].is_interface && t.chance(1, 4) {
+                let mut taken: BTreeSet<String> = own_edges[k].iter().map(|e| e.name.clone()).collect();
+                for j in &types[k].implements {
+                    for e in &own_edges[*j] {
+                        taken.insert(e.name.clone());
+                    }
+                }
+                let mut cands: Vec<String> = vec![];
+                for j in 0..k {
+                    if types[k].implements.contains(&j) {
+                        continue;
+                    }
+                    for e in &own_edges[j] {
+                        if !taken.contains(&e.name) && !cands.contains(&e.name) {
+                            cands.push(e.name.clone());
+                        }
+                    }
+                }
+                if !cands.is_empty() {
+                    name = cands[t.draw(cands.len() as u32) as usize].clone();
+                }
+            }
+            own_edges[k].push(EdgeDef { name, target, card, params, origin: k });
             edge_ctr += 1;
         }
     }
